@@ -699,6 +699,27 @@ theorem startup_any_outcome_single_chain (s : Source) (pairs : List (Hdr × Loca
 example : ((synchronizeListeners (exSrc 6 [8]) [⟨3, 2, []⟩, ⟨1, 0, []⟩]).result.toOption.isNone = true) ∧
     (synchronizeListeners (exSrc 6 [8]) [⟨3, 2, []⟩, ⟨1, 0, []⟩]).notifs = [[.disconnected 1 0], []] := by decide
 
+/-! ## the tuple listener adapter: both components see the same single chain -/
+
+/-- `impl Listen for (T, U)` (lightning/src/chain/mod.rs, delivery orders translated from the Rust text): whatever
+    the SpvClient tells the tuple — any notification sequence `ns`, in particular those of `poll_best_tip` and
+    `synchronize_listeners`, which the theorems above show to describe one valid chain — EACH of the two components
+    receives exactly `ns`, in the same order, nothing dropped or doubled. Hence both components are on the same
+    single chain after every poll. -/
+theorem tuple_components_see_same_chain (ns : List Notif) :
+    componentView 0 (tupleDeliver ns) = ns ∧ componentView 1 (tupleDeliver ns) = ns := by
+  induction ns with
+  | nil => exact ⟨rfl, rfl⟩
+  | cons n ns ih =>
+    obtain ⟨i0, i1⟩ := ih
+    unfold tupleDeliver componentView at *
+    cases n <;>
+      simp [tupleConnectOrder, tupleDisconnectOrder, List.flatMap_cons, List.filter_append, List.map_append] <;>
+      exact ⟨i0, i1⟩
+
+example : tupleDeliver [.disconnected 1 0, .connected 4 1] =
+    [(0, .disconnected 1 0), (1, .disconnected 1 0), (0, .connected 4 1), (1, .connected 4 1)] := by decide
+
 /-! ## headers that fail proof-of-work or do not connect are refused — for EVERY source behaviour -/
 
 /-- `BlockHeaderData::validate(hash)` (translated): whatever raw header a source answers, it becomes a
@@ -1126,6 +1147,117 @@ theorem tip_only_improves (s : Source) (cl : Client)
 example : (pollBestTip (exSrc 6 [7]) ⟨b3, []⟩).client.tip.work < b3.work := by decide
 example : ¬ (pollBestTip (exSrc 6 [9]) ⟨b3, []⟩).client.tip.work < b3.work := by decide
 example : ¬ (pollBestTip (exSrc 6 [4]) ⟨b3, []⟩).client.tip.work < b3.work := by decide  -- failure during the walk
+
+/-! ## … over whole poll histories -/
+
+/-- the poll of `cl` against `s` is an interrupted reorg (the right-hand side of `tip_work_decreases_iff`; KF-C20-1) -/
+def InterruptedReorg (s : Source) (cl : Client) : Prop :=
+  ∃ b req d req1, pollChainTip s 0 cl.tip = .ok (.better b, req) ∧
+    findDiff s cl.cache b cl.tip req = .ok (d, req1) ∧
+    d.common ≠ cl.tip ∧
+    fetchPrefix s req1 d.connected.reverse < d.connected.length ∧
+    (pollBestTip s cl).client.tip = lastOr d.common (d.connected.reverse.take (fetchPrefix s req1 d.connected.reverse)) ∧
+    (lastOr d.common (d.connected.reverse.take (fetchPrefix s req1 d.connected.reverse))).work < cl.tip.work
+
+/-- some poll of the history lowers the work of `chain_tip` -/
+def SomeWorkDecrease : Client → List Source → Prop
+  | _, [] => False
+  | cl, s :: ss => (pollBestTip s cl).client.tip.work < cl.tip.work ∨ SomeWorkDecrease (pollBestTip s cl).client ss
+
+/-- some poll of the history is an interrupted reorg -/
+def SomeInterruptedReorg : Client → List Source → Prop
+  | _, [] => False
+  | cl, s :: ss => InterruptedReorg s cl ∨ SomeInterruptedReorg (pollBestTip s cl).client ss
+
+/-- EXACT characterisation over whole histories (any sequence of best tips, failure schedules, forgotten blocks, by
+    induction over the history with the cache / tip invariants of `notifications_single_chain_poll`): the work of
+    `chain_tip` goes down at some poll of the history IF AND ONLY IF some poll of it is an interrupted reorg. -/
+theorem tip_work_decreases_history_iff (t : Tree) (hw : wfTree t = true) : ∀ (ss : List Source) (cl : Client),
+    (∀ s ∈ ss, s.tree = t) → CacheOk t cl.cache → InTree t cl.tip →
+    (SomeWorkDecrease cl ss ↔ SomeInterruptedReorg cl ss) := by
+  intro ss
+  induction ss with
+  | nil => intro cl _ _ _; exact Iff.rfl
+  | cons s ss ih =>
+    intro cl hs hc ht
+    have hst : s.tree = t := hs s List.mem_cons_self
+    subst hst
+    obtain ⟨_, ht', hc'⟩ := notifications_single_chain_poll s cl hw hc ht
+    have hstep := tip_work_decreases_iff s cl hw hc ht
+    have hrest := ih (pollBestTip s cl).client (fun x hx => hs x (List.mem_cons_of_mem _ hx)) hc' ht'
+    unfold SomeWorkDecrease SomeInterruptedReorg InterruptedReorg
+    exact or_congr hstep hrest
+
+/-- … hence, without ANY hypothesis on the sources: over a history none of whose polls is an interrupted reorg the
+    work of `chain_tip` never decreases — `tip_only_improves` lifted from one poll to whole histories. -/
+theorem tip_only_improves_history (t : Tree) (hw : wfTree t = true) : ∀ (ss : List Source) (cl : Client),
+    (∀ s ∈ ss, s.tree = t) → CacheOk t cl.cache → InTree t cl.tip → ¬ SomeInterruptedReorg cl ss →
+    cl.tip.work ≤ (runPolls cl ss).1.tip.work := by
+  intro ss
+  induction ss with
+  | nil => intro cl _ _ _ _; exact Nat.le_refl _
+  | cons s ss ih =>
+    intro cl hs hc ht hno
+    have hst : s.tree = t := hs s List.mem_cons_self
+    subst hst
+    obtain ⟨_, ht', hc'⟩ := notifications_single_chain_poll s cl hw hc ht
+    unfold SomeInterruptedReorg at hno
+    have h1 : cl.tip.work ≤ (pollBestTip s cl).client.tip.work := by
+      rcases Nat.lt_or_ge (pollBestTip s cl).client.tip.work cl.tip.work with h | h
+      · exact absurd (Or.inl ((tip_work_decreases_iff s cl hw hc ht).mp h)) hno
+      · exact h
+    have h2 := ih (pollBestTip s cl).client (fun x hx => hs x (List.mem_cons_of_mem _ hx)) hc' ht'
+      (fun h => hno (Or.inr h))
+    have : (runPolls cl (s :: ss)).1 = (runPolls (pollBestTip s cl).client ss).1 := by simp [runPolls]
+    rw [this]; omega
+
+-- an interrupted reorg (request 7) followed by a clean poll: the first poll lowers the work, the history recovers
+example : SomeWorkDecrease ⟨b3, []⟩ [exSrc 6 [7], exSrc 6 []] := Or.inl (by decide)
+example : (runPolls ⟨b3, []⟩ [exSrc 6 [7], exSrc 6 []]).1.tip = b6 := by decide
+example : b3.work ≤ (runPolls ⟨b3, []⟩ [exSrc 6 [9], exSrc 6 []]).1.tip.work := by decide
+
+/-! ## the header cache after a poll holds the block the listener was told last -/
+
+/-- Whatever the source does during a poll (any failure schedule, any cache before): if the last notification of the
+    poll is `block_connected(h, ht)`, the header cache of the client afterwards — what the NEXT poll's
+    `look_up_previous_header` answers from without `check_builds_on` — holds a header under `h`, with hash `h` and the
+    height the listener was told. (With `notifications_single_chain_poll`: `CacheOk`, every entry is a real header of the
+    tree under its own hash; the harness compares the whole cache content after every poll.) -/
+theorem last_connected_block_is_cached (s : Source) (cl : Client) (h ht : Nat)
+    (e : (pollBestTip s cl).notifs.getLast? = some (.connected h ht)) :
+    ∃ b, cacheLookUp (pollBestTip s cl).client.cache h = some b ∧ b.hash = h ∧ b.height = ht := by
+  unfold pollBestTip at e ⊢
+  split at e
+  · simp at e
+  · simp at e
+  · simp at e
+  · rename_i tp req hp
+    simp only [updateChainTip] at e ⊢
+    have key : (synchronizeListener s cl.cache req tp cl.tip).notifs.getLast? = some (.connected h ht) →
+        ∃ b, cacheLookUp (synchronizeListener s cl.cache req tp cl.tip).cache h = some b ∧ b.hash = h ∧ b.height = ht := by
+      intro e
+      unfold synchronizeListener at e ⊢
+      split at e
+      · simp at e
+      · rename_i d req1 hfd
+        simp only at e ⊢
+        by_cases hn : (connectBlocks s d.connected.reverse d.common
+            (if syncDisconnects d.common cl.tip = true then cacheBlocksDisconnected cl.cache false d.common else cl.cache) req1).notifs = []
+        · rw [hn] at e
+          split at e <;> simp [discNotif] at e
+        · rw [getLast?_append_ne_nil _ _ hn] at e
+          exact connectBlocks_last_cached s _ _ _ _ h ht e
+    generalize synchronizeListener s cl.cache req tp cl.tip = o at e key ⊢
+    cases hr : o.res with
+    | ok => simp only [hr] at e ⊢; exact key e
+    | errNone => simp only [hr] at e ⊢; exact key e
+    | errAt t =>
+      simp only [hr] at e ⊢
+      by_cases hpa : partialAdvance t cl.tip = true
+      · rw [if_pos hpa] at e ⊢; exact key e
+      · rw [if_neg hpa] at e ⊢; exact key e
+
+example : cacheLookUp (pollBestTip (exSrc 6 [8]) ⟨b3, []⟩).client.cache 4 = some b4 := by decide
 
 /-! ## BlockSourceError kinds through poll_best_tip -/
 
